@@ -19,11 +19,13 @@ Cells2(cl) == [i \in 1..Len(cl) |-> Pt(cl[i])]
 Frag(f) ==
   IF f.k = "L" THEN [k |-> "L", s |-> Pt(f.s), e |-> Pt(f.e), b |-> B(f.b), cells |-> Cells2(f.cells)]
   ELSE IF f.k = "A" THEN [k |-> "A", s |-> Pt(f.s), e |-> Pt(f.e), r |-> f.r, sw |-> B(f.sw), mj |-> B(f.mj), cells |-> Cells2(f.cells)]
-  ELSE IF f.k = "C" THEN [k |-> "C", c |-> Pt(f.c), r |-> f.r]
+  ELSE IF f.k = "C" THEN [k |-> "C", c |-> Pt(f.c), r |-> f.r, f |-> B(f.f), cells |-> Cells2(f.cells)]
+  ELSE IF f.k = "M" THEN [k |-> "M", s |-> Pt(f.s), e |-> Pt(f.e), b |-> B(f.b), em |-> f.em, cells |-> Cells2(f.cells)]
   ELSE IF f.k = "P" THEN [k |-> "P", pts |-> [i \in 1..Len(f.pts) |-> Pt(f.pts[i])], cells |-> Cells2(f.cells)]
   ELSE IF f.k = "R" THEN [k |-> "R", s |-> Pt(f.s), e |-> Pt(f.e), r |-> f.r, b |-> B(f.b)]
   ELSE [k |-> "T", cell |-> Pt(f.cell), s |-> f.t, cells |-> Cells2(f.cells)]
-NoCells(f) == IF f.k = "A" THEN [k |-> "A", s |-> f.s, e |-> f.e, r |-> f.r, sw |-> f.sw, mj |-> f.mj] ELSE f
+NoCells(f) == IF f.k = "A" THEN [k |-> "A", s |-> f.s, e |-> f.e, r |-> f.r, sw |-> f.sw, mj |-> f.mj]
+              ELSE IF f.k = "C" THEN [k |-> "C", c |-> f.c, r |-> f.r, f |-> f.f] ELSE f
 Frags(fs) == [i \in 1..Len(fs) |-> Frag(fs[i])]
 Groups(gs) == [i \in 1..Len(gs) |-> Frags(gs[i])]
 Span2(sp) == [i \in 1..Len(sp) |-> Pt(sp[i])]
